@@ -229,20 +229,98 @@ EFFECTS = [
 ]
 
 
+def sites_through_helpers(f, cfg, body, suffix, want=None):
+    """Call sites (bb, terminator) in `body` of a function whose path ends with `suffix` - directly, or through a
+    private helper of the same crate that (itself or one level down) makes that call: the helper's call site is then the
+    site of the effect."""
+    want = want or (lambda t: True)
+    out = [(bb, t) for bb, t in cfg.calls(suffix) if want(t)]
+    helpers = set()
+    for b in f.crates[body["crate"]]["bodies"]:
+        if "mir" not in b or b["path"] == body["path"] or b.get("kind") not in ("Fn", "AssocFn"):
+            continue
+        hc = M.Cfg(b)
+        if any(want(t) for bb, t in hc.calls(suffix)):
+            helpers.add(b["path"])
+    out += [(bb, t) for bb, t in cfg.calls() if cfg.callee(t) in helpers]
+    return out
+
+
+def rule_gate_eval(chk, pc):
+    """preprocess_command evaluated directive by directive (c12.DirectiveModel) in active and skipped regions: in a
+    skipped region no directive loads a file, marks #pragma once, defines / removes a macro or evaluates a condition,
+    an unknown directive is not an error, and #if / #ifdef / #ifndef only deepen the chain with a never-taken level;
+    in an active region each directive has its effect and leaves the chain the C rules require."""
+    import c12
+    dm = c12.DirectiveModel(chk.facts)
+    X = dm.macro("X", [dm.tok("LiteralInt", 1)])
+    w = dm.words
+    E, DI, DO = "Enabled", "DisabledInner", "DisabledOuter"
+    kinds = lambda eff: sorted({e[0] for e in eff})
+    cases = [
+        # name, directive, chain, cond, expected (result, chain after, effect kinds, macro names)
+        ("include/active", w("include", '"a.h"'), [], True, ("Ok", [], ["included", "load"], ["X"])),
+        ("include/skipped", w("include", '"a.h"'), [DI], True, ("Ok", [DI], [], ["X"])),
+        ("include/skipped-outer", w("include", '"a.h"'), [E, DO], True, ("Ok", [E, DO], [], ["X"])),
+        ("pragma-once/active", w("pragma", "once"), [E], True, ("Ok", [E], ["once"], ["X"])),
+        ("pragma-once/skipped", w("pragma", "once"), [DO], True, ("Ok", [DO], [], ["X"])),
+        ("define/skipped", w("define", "Z", 1), [DI], True, ("Ok", [DI], [], ["X"])),
+        ("undef/skipped", w("undef", "X"), [DO], True, ("Ok", [DO], [], ["X"])),
+        ("unknown/active", w("bogus"), [], True, ("Err(UnknownCommand)", [], [], ["X"])),
+        ("unknown/skipped", w("bogus"), [DI], True, ("Ok", [DI], [], ["X"])),
+        ("if/true", w("if", "X"), [], True, ("Ok", [E], ["eval", "expand"], ["X"])),
+        ("if/false", w("if", "X"), [E], False, ("Ok", [E, DI], ["eval", "expand"], ["X"])),
+        ("if/skipped", w("if", "X"), [DI], True, ("Ok", [DI, DI], [], ["X"])),
+        ("ifdef/defined", w("ifdef", "X"), [], True, ("Ok", [E], [], ["X"])),
+        ("ifdef/undefined", w("ifdef", "Q"), [], True, ("Ok", [DI], [], ["X"])),
+        ("ifndef/defined", w("ifndef", "X"), [], True, ("Ok", [DI], [], ["X"])),
+        ("ifndef/undefined", w("ifndef", "Q"), [E], True, ("Ok", [E, E], [], ["X"])),
+        ("ifdef/skipped", w("ifdef", "X"), [E, DO], True, ("Ok", [E, DO, DI], [], ["X"])),
+        ("else/after-taken", w("else"), [E], True, ("Ok", [DO], [], ["X"])),
+        ("else/after-untaken", w("else"), [E, DI], True, ("Ok", [E, E], [], ["X"])),
+        ("else/after-done", w("else"), [DO], True, ("Ok", [DO], [], ["X"])),
+        ("else/unmatched", w("else"), [], True, ("Err(ElseNotMatched)", [], [], ["X"])),
+        ("elif/untaken-true", w("elif", "X"), [DI], True, ("Ok", [E], None, ["X"])),
+        ("elif/untaken-false", w("elif", "X"), [DI], False, ("Ok", [DI], None, ["X"])),
+        ("elif/after-taken", w("elif", "X"), [E], True, ("Ok", [DO], None, ["X"])),
+        ("elif/after-done", w("elif", "X"), [DO], True, ("Ok", [DO], None, ["X"])),
+        ("endif", w("endif"), [E, DI], True, ("Ok", [E], [], ["X"])),
+        ("endif/unmatched", w("endif"), [], True, ("Err(EndIfNotMatched)", [], [], ["X"])),
+    ]
+    first = True
+    for name, cmd, chain, cond, want in cases:
+        r = dm.run(cmd, [X], chain, cond)
+        if first and r[0] == "unreadable":
+            return False
+        first = False
+        if len(r) == 2:
+            got = r
+            ok = False
+        else:
+            got = (r[0], r[2], kinds(r[3]), [m_[0] for m_ in r[1]])
+            ok = got[0] == want[0] and got[1] == want[1] and got[3] == want[3] and (want[2] is None or got[2] == want[2])
+        chk.ob("C11.gate/model/%s" % name, ok, "result %s, chain %s, effects %s" % (want[0], want[1], want[2]) if ok else
+               "directive case `%s` in chain %s (condition %s): result, chain, effects, macros = %s; the C rules require %s - a directive inside an unselected branch has an effect, or the chain takes a wrong turn"
+               % (name, chain, cond, (got,), (want,)), where(pc), sample={"case": name})
+    return True
+
+
 def rule_gate(chk):
     f = chk.facts
     pc = f.fn("preprocess_command", PP)
     if not pc:
         return
+    try:
+        rule_gate_eval(chk, pc)
+    except Exception as e:
+        chk.note("directive model not evaluated: %r" % (e,))
     cfg = M.Cfg(pc)
     is_skip = M.is_call_result("ConditionChain::is_active")
     te, fe = M.guard_edges(cfg, is_skip)
     chk.floor("C11.floor/skip-tests", len(te), 6, "branches on `skip` in preprocess_command", where(pc))
     n = 0
     for suffix, label in EFFECTS:
-        sites = cfg.calls(suffix)
-        if suffix.endswith("retain"):
-            sites = [s for s in sites if "Macro" in str(s[1]["f"])]
+        sites = sites_through_helpers(f, cfg, pc, suffix, (lambda t_: "Macro" in str(t_["f"])) if suffix.endswith("retain") else None)
         chk.ob("C11.gate/site/" + label, bool(sites), "%d call site(s)" % len(sites) if sites else "anchor-missing: no call to " + suffix, where(pc), trivial=True)
         for bb, t in sites:
             ok, ng = M.dominated_by_guard(cfg, bb, is_skip, want=True)   # is_active()==true  <=> skip==false
@@ -259,7 +337,7 @@ def rule_gate(chk):
         n += 1
         chk.ob("C11.gate/define: macros.push", ok, "gated" if ok else "macros.push is reachable while skip is true", where(pc, t.get("ln")))
     # #if: condition evaluation gated (the #elif evaluation is deliberately not gated: switch handles it)
-    evals = cfg.calls("condition_parser::parse")
+    evals = sites_through_helpers(f, cfg, pc, "condition_parser::parse")
     chk.floor("C11.floor/cond-evals", len(evals), 2, "#if/#elif condition evaluations", where(pc))
     gated = [M.dominated_by_guard(cfg, bb, is_skip, want=True)[0] for bb, t in evals]
     chk.ob("C11.gate/if-eval", sum(gated) >= 1, "the #if condition is evaluated only when not skipping" if sum(gated) >= 1 else
@@ -554,14 +632,15 @@ def rule_defined(chk):
         pc = f.fn("preprocess_command", PP)
         fl = f.fn("flush_normal", PP)
         def flags(fn):
+            # apply_macros(.., <apply_defined>, ..) calls of the function and of the private helpers it calls
             out = []
-            for c in F.exprs(fn["thir"], "Call"):
-                if short(c.get("fn") or "") == "apply_macros":
-                    l = F.lit(c["args"][2])
-                    out.append(l[1] if l else None)
+            for args_, c in F.calls_through_wrappers(f, fn, lambda c: short(c.get("fn") or "") == "apply_macros", depth=1):
+                l = F.lit(F.strip(args_[2]))
+                out.append(l[1] if l else None)
             return out
         if pc and fl:
             a, b = flags(pc), flags(fl)
-            chk.ob("C11.defined/callers", a == [True, True] and b == [False],
+            a_ok = bool(a) and all(x is True for x in a) and len(a) in (1, 2)    # one shared helper or the two arms
+            chk.ob("C11.defined/callers", a_ok and b == [False],
                    "#if/#elif expand with apply_defined=true, text with false" if a == [True, True] and b == [False] else
                    "apply_defined flags: directives %s, text %s (expected [true,true] / [false])" % (a, b), where(pc))
